@@ -13,7 +13,7 @@ import itertools
 
 S = Sym
 PROPERTY = 'C18'
-PROPS_MODULES = ['C18']
+PROPS_MODULES = ['C18', 'C06c']
 ASSUMPTIONS = []
 
 SEPS = ['\n', '\n\n', ' ', '\n \n', '\t', '\r\n', '  \n  ']
